@@ -85,7 +85,9 @@ func convertToVector(v any) ([]float32, error) {
 	case []float64:
 		vector = make([]float32, len(v))
 		for i, f := range v {
-			vector[i] = float32(f)
+			if vector[i] = float32(f); overflowsFloat32(f) {
+				return nil, fmt.Errorf("vector element %v does not fit a 32 bit float", f)
+			}
 		}
 		return vector, nil
 	case []any:
@@ -95,7 +97,9 @@ func convertToVector(v any) ([]float32, error) {
 			case float32:
 				vector[i] = f
 			case float64:
-				vector[i] = float32(f)
+				if vector[i] = float32(f); overflowsFloat32(f) {
+					return nil, fmt.Errorf("vector element %v does not fit a 32 bit float", f)
+				}
 			default:
 				return nil, fmt.Errorf("expected float, got %T", f)
 			}
@@ -104,6 +108,13 @@ func convertToVector(v any) ([]float32, error) {
 		return nil, fmt.Errorf("expected vector array, got %T", v)
 	}
 	return vector, nil
+}
+
+// Whether a finite number becomes infinite when it is narrowed to 32 bits. The
+// infinity would be stored, and every search that computes a distance to it
+// or selects it cannot be answered.
+func overflowsFloat32(f float64) bool {
+	return !math.IsInf(f, 0) && math.IsInf(float64(float32(f)), 0)
 }
 
 // Whether a decoded number is a whole number that fits an int64, the
